@@ -34,8 +34,8 @@ func runC07(x *Ctx) {
 	x.C.Rule("C07.R2", "codec pairing by function name; floats survive the DAG-JSON form", 6)
 	x.C.Rule("C07.R3", "key-algorithm tables; the header sealed is the one the verifier expects", 4)
 	x.C.Rule("C07.R4", "constructors bound every serialised timestamp like the decoder; validate reads time bounds at wire resolution", 11)
-	x.C.Rule("C07.R5", "construct-side counterparts of decode-side validators; the policy decoder refuses only for what the document holds", 8)
-	x.C.Rule("C07.R6", "generic decoder = typed decoders", 1)
+	x.C.Rule("C07.R5", "construct-side counterparts of decode-side validators; the policy decoder refuses only for what the document holds; sealing does not read the clock", 10)
+	x.C.Rule("C07.R6", "generic decoder = typed decoders, chosen from the decoded envelope", 2)
 	x.C.Rule("C07.R7", "encoders return the codec's fresh output", 3)
 	x.C.Rule("C07.R8", "ordered containers (Args, Meta): a key is appended to the key list exactly when it is new in the map; ToIPLD assembles every key", 5)
 
@@ -134,6 +134,8 @@ func runC07(x *Ctx) {
 	decodeOnlyValidators(x)
 	documentDecides(x)
 	jsonFloatFidelity(x)
+	noClockOnSealing(x)
+	typedDecodersThroughFromIPLD(x)
 	freshEncoderOutput(x)
 
 	// R6
